@@ -495,6 +495,11 @@ fn main() {
         }
     }
 
+    let dict = vmon::dict::harvest("/repo", &["dasp_sample"]);
+    let dict_floats = dict.floats_all();
+    rep.oblige("source_literals_harvested", 10);
+    rep.hit_n("source_literals_harvested", dict.ints.len() as u64);
+    rep.note(format!("input dictionary: {} integer and {} float literals harvested from {} source files of dasp_sample ({} derived float inputs)", dict.ints.len(), dict.floats.len(), dict.files, dict_floats.len()));
     let s32 = structured_f32();
     let s32_as64: Vec<f64> = s32.iter().map(|x| *x as f64).collect();
     let reps = vmon::par_for(
@@ -518,7 +523,16 @@ fn main() {
             }
             Job::IStruct(pi) => {
                 let p = &i2f[pi];
-                let vals = spec::structured_values(p.src(), 4096, 64);
+                let mut vals = spec::structured_values(p.src(), 4096, 64);
+                // the inputs on which correct rounding differs from truncation / double rounding
+                let prec = if p.dst() == "f32" { 24 } else { 53 };
+                let rb = spec::rounding_boundaries(p.src(), prec, seed ^ pi as u64);
+                rep.count("i2f_rounding_boundary_values", rb.len() as u64);
+                vals.extend(rb);
+                // numeric literals of the crate's own source as inputs (magic-value special cases)
+                let dv = dict.ints_for(p.src().min(), p.src().max(), p.src().bits);
+                rep.count("dictionary_values", dv.len() as u64);
+                vals.extend(dv);
                 p.check_list(&vals, rep);
                 rep.count("i2f_structured_values", vals.len() as u64);
                 if rep.want_sample() {
@@ -549,6 +563,9 @@ fn main() {
             Job::FStruct32(pi) => {
                 let p = &f2i[pi];
                 p.check_list(&s32_as64, rep);
+                let dv: Vec<f64> = dict_floats.iter().map(|x| *x as f32 as f64).collect();
+                p.check_list(&dv, rep);
+                rep.count("dictionary_values", dv.len() as u64);
                 rep.count("f2i_f32_structured_values", s32_as64.len() as u64);
                 if rep.want_sample() {
                     rep.sample(p.sample(s32_as64[s32_as64.len() / 2 + 7]));
@@ -576,6 +593,8 @@ fn main() {
                 let mut rng = Rng::derive(seed, &[3, pi as u64]);
                 let mut vals = structured_f64(p.dst().bits, &mut rng, n_f64_random);
                 vals.extend_from_slice(&s32_as64);
+                vals.extend_from_slice(&dict_floats);
+                rep.count("dictionary_values", dict_floats.len() as u64);
                 p.check_list(&vals, rep);
                 for x in &vals {
                     if *x != 0.0 && *x != -1.0 {
